@@ -185,11 +185,18 @@ func checkRetry(t *testing.T, c retryCase, hooked bool) (sig, msg string) {
 			sig, msg = "C17 retry-exceeds-max-attempts", desc
 			return
 		}
-		// reference run of the script
+		// reference run of the script on a virtual time line. waitLo/waitHi bound the wait after invocation k
+		// (exact when the dice are known); a cancellation that falls between them may go either way.
 		wantCalls, wantErr := 0, "nil"
 		brkFails := 0
+		either := false
+		var now, cancelAt time.Duration
+		cancelAt = -1
+		if c.CancelMode == 1 {
+			cancelAt = 0
+		}
 		for k := 0; ; k++ {
-			if c.CancelMode == 1 {
+			if cancelAt >= 0 && cancelAt <= now {
 				wantErr = "ctx"
 				break
 			}
@@ -198,25 +205,15 @@ func checkRetry(t *testing.T, c retryCase, hooked bool) (sig, msg string) {
 				break
 			}
 			wantCalls++
+			if c.CancelMode == 2 && k == c.CancelK {
+				cancelAt = now
+			}
+			if c.CancelMode == 3 && k == c.CancelK {
+				cancelAt = now + c.CancelOff
+			}
 			out := 0
 			if k < len(c.Script) {
 				out = c.Script[k]
-			}
-			if c.CancelMode == 2 && k == c.CancelK {
-				// cancelled during the invocation: the outcome of this invocation still counts first
-				if out == 0 {
-					break
-				}
-				if out == 2 {
-					wantErr = "perm"
-					break
-				}
-				if c.MaxAttempts > 0 && k >= c.MaxAttempts-1 {
-					wantErr = "max"
-					break
-				}
-				wantErr = "ctx"
-				break
 			}
 			if out == 0 {
 				break
@@ -230,24 +227,34 @@ func checkRetry(t *testing.T, c retryCase, hooked bool) (sig, msg string) {
 				wantErr = "max"
 				break
 			}
-			if c.CancelMode == 3 && k <= c.CancelK {
-				// cancelled during the wait that follows invocation CancelK (if it is shorter than the backoff)
-				if k == c.CancelK {
-					bo := 50 * time.Millisecond << uint(k)
-					if bo > 400*time.Millisecond {
-						bo = 400 * time.Millisecond
-					}
-					if c.CancelOff < bo/2 { // jitter 0.5: the wait is at least backoff/2
-						wantErr = "ctx"
-						break
-					}
-					if c.CancelOff <= bo+bo/2 {
-						wantErr = "?" // inside the jitter band: either
-						wantCalls = -1
-						break
-					}
+			bo := float64(50*time.Millisecond) * math.Pow(2, float64(k))
+			if bo > float64(400*time.Millisecond) {
+				bo = float64(400 * time.Millisecond)
+			}
+			lo, hi := time.Duration(bo*0.5), time.Duration(bo*1.5)
+			if hooked {
+				f := 0.5
+				if len(c.Dice) > 0 {
+					f = c.Dice[k%len(c.Dice)]
+				}
+				w := time.Duration(bo + bo*0.5*(2*f-1))
+				lo, hi = w, w
+			}
+			if cancelAt >= 0 {
+				switch {
+				case cancelAt <= now, cancelAt < now+lo-2:
+					wantErr = "ctx"
+				case cancelAt <= now+hi+2:
+					either = true
+				}
+				if wantErr == "ctx" || either {
+					break
 				}
 			}
+			now += (lo + hi) / 2
+		}
+		if either {
+			wantCalls = -1
 		}
 		gotErr := "nil"
 		switch {
